@@ -825,6 +825,12 @@ func (bc *Blockchain) jumpToStateInternal(p uint32, stage stateChangeStage) erro
 			if err != nil {
 				return fmt.Errorf("failed to remove outdated state data for the genesis block: %w", err)
 			}
+			// DeleteBlock drops the header as well, but header hashes that are not yet
+			// stored as a full page are restored on start by walking the headers back.
+			err = cache.StoreHeader(&genesisBlock.Header)
+			if err != nil {
+				return fmt.Errorf("failed to keep the genesis header: %w", err)
+			}
 			prefixes := []byte{byte(storage.STNEP11Transfers), byte(storage.STNEP17Transfers), byte(storage.STTokenTransferInfo)}
 			for i := range prefixes {
 				cache.Store.Seek(storage.SeekRange{Prefix: prefixes[i : i+1]}, func(k, v []byte) bool {
